@@ -780,8 +780,14 @@ func (m *fsImpl) fileOp(vfs avfs.VFS, h avfs.File, a []string) string {
 }
 
 // existingPaths walks the implementation's tree through the API (no symlink following), bounded.
-func (m *fsImpl) existingPaths() (dirs, files, links []string) {
-	vfs := m.views[0]
+func (m *fsImpl) existingPaths() (dirs, files, links []string) { return m.existingPathsIn(0) }
+
+// existingPathsIn: the tree as seen through view vid.
+func (m *fsImpl) existingPathsIn(vid int) (dirs, files, links []string) {
+	vfs, ok := m.views[vid]
+	if !ok {
+		return
+	}
 	var walk func(p string, depth int)
 	walk = func(p string, depth int) {
 		if depth > 6 {
